@@ -81,11 +81,11 @@ func (ex *Exec) assumeFieldInvAll(st *State, name, term string) {
 		el := s.Elem.Elem
 		nn := "(> " + sqNth("(select "+term+" q_o)", "q_k", el) + " 0)"
 		if el.K == KAny {
-			nn = "(not (= " + sqNth("(select "+term+" q_o)", "q_k", el) + " anyNil))"
+			nn = ex.nnAny(sqNth("(select "+term+" q_o)", "q_k", el), ex.fieldElemType(sf[0], sf[1]))
 		}
 		ex.vc.assume("(forall ((q_o Int) (q_k Int)) (! (=> (and (<= 0 q_k) (< q_k " + sqLen("(select "+term+" q_o)", el) + ")) " + nn + ") :pattern (" + sqNth("(select "+term+" q_o)", "q_k", el) + ")))")
 	}
-	invs := ex.cs.FieldInvs[sf[0]+"."+sf[1]]
+	invs := ex.fieldInvs(sf[0], sf[1])
 	if len(invs) == 0 || ex.inFieldInv {
 		return
 	}
@@ -97,6 +97,94 @@ func (ex *Exec) assumeFieldInvAll(st *State, name, term string) {
 		body := ex.trBool(inv.Expr, env)
 		ex.vc.assume("(forall ((q_o Int)) (! " + body + " :pattern ((select " + term + " q_o))))")
 	}
+}
+func mapElemType(t types.Type) types.Type {
+	if m, ok := t.Underlying().(*types.Map); ok {
+		return m.Elem()
+	}
+	return nil
+}
+
+// fieldGoType: Go type of a struct field (nil when unknown).
+func (ex *Exec) fieldGoType(st, f string) types.Type {
+	si := ex.w.structs[st]
+	if si == nil {
+		return nil
+	}
+	for _, fi := range si.Fields {
+		if fi.Name == f {
+			return fi.Type
+		}
+	}
+	return nil
+}
+
+// fieldElemType: Go element type of a slice-typed struct field (nil when unknown).
+func (ex *Exec) fieldElemType(st, f string) types.Type {
+	si := ex.w.structs[st]
+	if si == nil {
+		return nil
+	}
+	for _, fi := range si.Fields {
+		if fi.Name == f && fi.Type != nil {
+			if sl, ok := fi.Type.Underlying().(*types.Slice); ok {
+				return sl.Elem()
+			}
+		}
+	}
+	return nil
+}
+
+// capturedNonNil: captured variables of these types are assumed non-nil inside closure bodies (safety mode)
+// and checked where the closure is created.
+func capturedNonNil(ex *Exec, t types.Type) bool {
+	s := ex.w.SortOf(t)
+	if s.K == KRef {
+		return s.Name != "" && s.Name != "cell" && s.Name != "map" && s.Name != "chan" && s.Name != "nil"
+	}
+	return s.K == KAny && ex.strongIface(t)
+}
+
+// assumeFieldInvAt is assumeFieldInvAll for a single havocked object o with new field value v
+// (object-level loop frames).
+func (ex *Exec) assumeFieldInvAt(st *State, name, o, v string) {
+	sf, ok := ex.fieldOf[name]
+	if !ok || ex.inFieldInv {
+		return
+	}
+	s := ex.svSort(name)
+	if s.K == KArr && s.Elem.K == KRef {
+		ex.assumeAllocated(st, v)
+	}
+	if ex.safety && s.K == KArr && s.Elem.K == KSeq && (s.Elem.Elem.K == KAny || s.Elem.Elem.K == KRef && s.Elem.Elem.Name != "" && s.Elem.Elem.Name != "cell") {
+		el := s.Elem.Elem
+		nn := "(> " + sqNth(v, "q_k", el) + " 0)"
+		if el.K == KAny {
+			nn = ex.nnAny(sqNth(v, "q_k", el), ex.fieldElemType(sf[0], sf[1]))
+		}
+		ex.vc.assume("(forall ((q_k Int)) (! (=> (and (<= 0 q_k) (< q_k " + sqLen(v, el) + ")) " + nn + ") :pattern (" + sqNth(v, "q_k", el) + ")))")
+	}
+	ex.inFieldInv = true
+	defer func() { ex.inFieldInv = false }()
+	for _, inv := range ex.fieldInvs(sf[0], sf[1]) {
+		env := &Env{ex: ex, vars: map[string]*Val{"$v": {T: v, S: s.Elem}, "$o": {T: o, S: SRef(sf[0])}}, cur: st, old: st}
+		ex.vc.assume(ex.trBool(inv.Expr, env))
+	}
+}
+
+// fieldInvs returns the field invariants in force: safety-only invariants count in safety mode only.
+func (ex *Exec) fieldInvs(st, f string) []Clause {
+	all := ex.cs.FieldInvs[st+"."+f]
+	if ex.safety {
+		return all
+	}
+	var out []Clause
+	for _, c := range all {
+		if !c.SafetyOnly {
+			out = append(out, c)
+		}
+	}
+	return out
 }
 func (ex *Exec) cellVar(s *Sort) string {
 	return ex.regSV("C_"+s.Ident(), SArr(SInt, s))
@@ -378,7 +466,7 @@ func (fr *Frame) execInstr(ins ssa.Instruction) {
 			}
 		}
 		if ms.Val.K == KAny && ex.safety {
-			vc.assume(imp(dom, not(eq(raw, "anyNil"))))
+			vc.assume(imp(dom, ex.nnAny(raw, mapElemType(i.X.Type()))))
 		}
 		if i.CommaOk {
 			fr.setVal(i, &Val{S: &Sort{K: KTuple}, Tup: []*Val{{T: val, S: ms.Val}, {T: dom, S: SBool}}})
@@ -395,7 +483,7 @@ func (fr *Frame) execInstr(ins ssa.Instruction) {
 			fr.safety("nil-elem", ins, "(> "+v.T+" 0)", "map value "+exprText(ex, ins))
 		}
 		if ms.Val.K == KAny {
-			fr.safety("nil-elem", ins, not(eq(v.T, "anyNil")), "map value "+exprText(ex, ins))
+			fr.safety("nil-elem", ins, ex.nnAny(v.T, mapElemType(i.Map.Type())), "map value "+exprText(ex, ins))
 		}
 		dn, vn := ex.mapDomVar(ms), ex.mapValVar(ms)
 		ex.set(st, dn, "(store "+ex.get(st, dn)+" "+m.T+" (store (select "+ex.get(st, dn)+" "+m.T+") "+k.T+" true))")
@@ -426,12 +514,15 @@ func (fr *Frame) execInstr(ins ssa.Instruction) {
 			el := a.Ptr.Sort.Elem
 			nn := "(> " + sqNth(v.T, "q_k", el) + " 0)"
 			if el.K == KAny {
-				nn = "(not (= " + sqNth(v.T, "q_k", el) + " anyNil))"
+				nn = ex.nnAny(sqNth(v.T, "q_k", el), ex.fieldElemType(a.Ptr.Struct, a.Ptr.Field))
 			}
 			fr.safety("nil-elem", ins, "(forall ((q_k Int)) (=> (and (<= 0 q_k) (< q_k "+sqLen(v.T, el)+")) "+nn+"))", "elements of "+a.Ptr.Struct+"."+a.Ptr.Field)
 		}
+		if a.Ptr.Kind == "field" && v.S.K == KAny && ex.safety && ex.strongIface(ex.fieldGoType(a.Ptr.Struct, a.Ptr.Field)) {
+			fr.safety("boxed-nil", ins, wfIface(v.T), "store to "+a.Ptr.Struct+"."+a.Ptr.Field)
+		}
 		if a.Ptr.Kind == "field" {
-			for k, inv := range ex.cs.FieldInvs[a.Ptr.Struct+"."+a.Ptr.Field] {
+			for k, inv := range ex.fieldInvs(a.Ptr.Struct, a.Ptr.Field) {
 				env := &Env{ex: ex, vars: map[string]*Val{"$v": v, "$o": {T: a.Ptr.Ref, S: SRef(a.Ptr.Struct)}}, cur: st, old: st, fr: fr}
 				g := ex.trBool(inv.Expr, env)
 				if ex.topFn != nil {
@@ -461,6 +552,12 @@ func (fr *Frame) execInstr(ins ssa.Instruction) {
 				if s.K == KAny {
 					vc.assume("(anyWF " + v.T + ")")
 				}
+				if x.Ptr.LibErr {
+					vc.assume(not(eq(v.T, "anyNil")))
+				}
+				if ex.safety && s.K == KAny && x.Ptr.Kind == "field" && ex.strongIface(ex.fieldGoType(x.Ptr.Struct, x.Ptr.Field)) {
+					vc.assume(wfIface(v.T))
+				}
 				if x.Ptr.Kind == "field" && ex.safety {
 					for _, inv := range ex.cs.FieldAsms[x.Ptr.Struct+"."+x.Ptr.Field] {
 						env := &Env{ex: ex, vars: map[string]*Val{"$v": v, "$o": {T: x.Ptr.Ref, S: SRef(x.Ptr.Struct)}}, cur: st, old: st, fr: fr}
@@ -469,7 +566,7 @@ func (fr *Frame) execInstr(ins ssa.Instruction) {
 					}
 				}
 				if x.Ptr.Kind == "field" {
-					for _, inv := range ex.cs.FieldInvs[x.Ptr.Struct+"."+x.Ptr.Field] {
+					for _, inv := range ex.fieldInvs(x.Ptr.Struct, x.Ptr.Field) {
 						env := &Env{ex: ex, vars: map[string]*Val{"$v": v, "$o": {T: x.Ptr.Ref, S: SRef(x.Ptr.Struct)}}, cur: st, old: st, fr: fr}
 						vc.assume(imp(fr.curReach, ex.trBool(inv.Expr, env)))
 					}
@@ -518,6 +615,7 @@ func (fr *Frame) execInstr(ins ssa.Instruction) {
 				fr.setVal(i, &Val{S: s, Tup: []*Val{fr.havocVal("recv", es), {T: vc.fresh("recvok", SBool), S: SBool}}})
 			} else {
 				rv := fr.havocVal("recv", s)
+				rv.GoT = i.Type()
 				fr.assumeNonNilReceived(rv)
 				fr.setVal(i, rv)
 			}
@@ -629,9 +727,24 @@ func (fr *Frame) execInstr(ins ssa.Instruction) {
 		fr.setVal(i, &Val{T: r, S: SRef("chan")})
 	case *ssa.MakeClosure:
 		r := ex.alloc(st, "closure")
-		clo := &Closure{Fn: i.Fn.(*ssa.Function)}
-		for _, b := range i.Bindings {
-			clo.Bindings = append(clo.Bindings, fr.val(b))
+		cfn := i.Fn.(*ssa.Function)
+		clo := &Closure{Fn: cfn}
+		for k, b := range i.Bindings {
+			bv := fr.val(b)
+			clo.Bindings = append(clo.Bindings, bv)
+			// safety mode: the closure body assumes captured pointers / package interfaces are non-nil
+			if pt, ok := cfn.FreeVars[k].Type().Underlying().(*types.Pointer); ok && ex.safety && capturedNonNil(ex, pt.Elem()) {
+				es := w.SortOf(pt.Elem())
+				cell := "(select " + ex.get(st, ex.cellVar(es)) + " " + bv.T + ")"
+				if bv.Ptr != nil {
+					cell = ex.load(st, bv.Ptr)
+				}
+				if es.K == KRef {
+					fr.safety("nil-capture", ins, "(> "+cell+" 0)", "captured "+cfn.FreeVars[k].Name())
+				} else {
+					fr.safety("nil-capture", ins, ex.nnAny(cell, pt.Elem()), "captured "+cfn.FreeVars[k].Name())
+				}
+			}
 		}
 		fr.setVal(i, &Val{T: r, S: SRef("func"), Clo: clo})
 	case *ssa.Slice:
@@ -682,6 +795,18 @@ func (fr *Frame) execInstr(ins ssa.Instruction) {
 		vals := []*Val{}
 		for _, r := range i.Results {
 			vals = append(vals, fr.val(r))
+		}
+		if ex.safety && ex.depth == 0 && i.Parent() == ex.topFn {
+			rs := i.Parent().Signature.Results()
+			for k, v := range vals {
+				if k < rs.Len() && v.S.K == KAny && ex.strongIface(rs.At(k).Type()) {
+					g := wfIface(v.T)
+					if n := rs.Len(); n > 1 && rs.At(n-1).Type().String() == "error" {
+						g = or(not(eq(vals[n-1].T, "anyNil")), g) // only promised together with a nil error
+					}
+					fr.safety("boxed-nil", ins, g, fmt.Sprintf("result %d", k))
+				}
+			}
 		}
 		fr.rets = append(fr.rets, retSite{reach: fr.curReach, vals: vals, st: fr.cur.Clone()})
 	case *ssa.Panic:
@@ -952,7 +1077,7 @@ func (fr *Frame) nextOp(i *ssa.Next) {
 		}
 	}
 	if ms.Val.K == KAny && ex.safety {
-		vc.assume(imp(ok, not(eq(vv, "anyNil"))))
+		vc.assume(imp(ok, ex.nnAny(vv, mapElemType(rng.X.Type()))))
 	}
 	fr.setVal(i, &Val{S: s, Tup: []*Val{{T: ok, S: SBool}, {T: k, S: ms.Key}, {T: vv, S: ms.Val}}})
 }
@@ -968,7 +1093,7 @@ func (fr *Frame) assumeNonNilReceived(v *Val) {
 	case KRef:
 		ex.vc.assume("(> " + v.T + " 0)")
 	case KAny:
-		ex.vc.assume(not(eq(v.T, "anyNil")))
+		ex.vc.assume(ex.nnAny(v.T, v.GoT))
 	case KData:
 		// struct values carried by value: their pointer-like fields are non-nil too
 		if si := ex.w.datas[v.S.Name]; si != nil {
@@ -989,7 +1114,7 @@ func (fr *Frame) ghostSend(i *ssa.Send) {
 		case KRef:
 			fr.safety("nil-elem", i, "(> "+x.T+" 0)", "value sent on channel "+i.Chan.Name())
 		case KAny:
-			fr.safety("nil-elem", i, not(eq(x.T, "anyNil")), "value sent on channel "+i.Chan.Name())
+			fr.safety("nil-elem", i, fr.ex.nnAny(x.T, i.X.Type()), "value sent on channel "+i.Chan.Name())
 		}
 	}
 	// channel send: ghost append to the channel's event log, if declared
